@@ -1,5 +1,7 @@
 """Call log filled by the instrumented model classes (C13).  None = disabled."""
-LOG = None
+import os
+
+LOG = [] if os.environ.get("XV_CALLLOG") else None
 
 
 def record(event, obj, extra=None):
